@@ -11,7 +11,15 @@ Local Open Scope Q_scope.
    cancellation while its rounding error is relative to the inputs. *)
 Definition close_rel (mg a b : Q) : bool :=
   Qle_bool (Qabs (a - b)) (tol * Qmax' mg (Qmax' (Qabs a) (Qabs b))).
-Definition fl_close_rel (mg m : Q) (o : fl) : bool := match o with Fin q => close_rel mg m q | _ => false end.
+(* far-offset closeness, per coordinate: the feature-relative term t plus 3/4 * 2^-51 of the coordinate itself, i.e.
+   between 0.75 and 1.5 ulp of it (a correctly computed position carries half an ulp from its last addition) *)
+Definition close_abs (t : Q) (_ a b : Q) : bool :=
+  Qle_bool (Qabs (a - b)) (t + (3 # 4) * (1 # 2251799813685248) * Qmax' (Qabs a) (Qabs b)).
+
+Section Cmp.
+(* the closeness used for positions: close_rel, or an absolute tolerance for far-offset cases (CFar) *)
+Context (cl : Q -> Q -> Q -> bool).
+Definition fl_close_rel (mg m : Q) (o : fl) : bool := match o with Fin q => cl mg m q | _ => false end.
 Definition vec_close_rel mg (m : vec3 Q) (o : list fl) : bool := all2 (fl_close_rel mg) (vlist m) o.
 Definition row_opt (mg : Q) (m : option (vec3 Q)) (o : list fl) : bool :=
   match m with None => match o with [] => true | _ => false end | Some v => vec_close_rel mg v o end.
@@ -22,6 +30,7 @@ Definition row_nan (mg : Q) (m : option (vec3 Q)) (o : list fl) : bool :=
   end.
 Definition rows_opt mg := all2 (row_opt mg).
 Definition rows_nan mg := all2 (row_nan mg).
+End Cmp.
 Definition vmag (v : vec3 Q) : Q := Qmax' (Qabs (vx v)) (Qmax' (Qabs (vy v)) (Qabs (vz v))).
 Definition mag (ps : list (vec3 Q)) : Q := fold_left (fun m p => Qmax' m (vmag p)) ps 0.
 
@@ -38,7 +47,10 @@ Inductive case :=
 | CPoly (exact : bool) (band : Q) (pl : plane Q) (v : list (vec3 Q)) (closed : bool)
         (pts : list (list fl)) (idx : list nat) (pts_only : list (list fl))
 (* pairwise intersect_segment_with_plane on exact inputs, any normals *)
-| CIsp (starts segvs pops nrms : list (vec3 Q)) (rows : list (list fl)) (single : list (list fl)).
+| CIsp (starts segvs pops nrms : list (vec3 Q)) (rows : list (list fl)) (single : list (list fl))
+(* a small scene far from the origin: positions are compared per coordinate with ptol (1e-9 of the scene size) plus
+   0.75..1.5 ulp of that coordinate, instead of 1e-9 of the coordinates *)
+| CFar (ptol : Q) (c : case).
 
 (* a side / parallelism decision may be compared when arithmetic was exact or the value is away from zero *)
 Definition away (band x : Q) : bool := negb (Qle_bool (Qabs x) band).
@@ -54,7 +66,8 @@ Fixpoint all2m {A B} (f : A -> B -> bool) (mask : list bool) (l : list A) (l' : 
   | _, _, _ => false
   end.
 
-Definition check_case (c : case) : bool :=
+Definition check_with (cl : Q -> Q -> Q -> bool) (c : case) : bool :=
+  let row_opt := row_opt cl in let row_nan := row_nan cl in let rows_nan := rows_nan cl in
   match c with
   | CSegs exact band pl a b single st_rows st_valid isp_single isp_stack =>
       let mask := map2 (fun x y => robust_pts exact band pl [x; y]) a b in
@@ -93,4 +106,11 @@ Definition check_case (c : case) : bool :=
       let m := mag (starts ++ segvs ++ pops) in
       rows_nan m (intersect_segments_with_planes QOps starts segvs pops nrms) rows &&
       rows_nan m (intersect_segments_with_planes QOps starts segvs pops nrms) single
+  | CFar _ _ => false
+  end.
+
+Definition check_case (c : case) : bool :=
+  match c with
+  | CFar t c' => check_with (close_abs t) c'
+  | _ => check_with close_rel c
   end.
